@@ -397,6 +397,9 @@ pub fn partial_query(db: &RootDatabase, main: &[CrateInput], kind: u8, pick: usi
         return;
     }
     let m: ModuleId<'_> = modules[pick % modules.len()];
+    if std::env::var("VERIF_DUMP_DIR").is_ok() {
+        eprintln!("partial_query kind={} module={}", kind % 6, m.full_path(db));
+    }
     match kind % 6 {
         0 => {
             let _ = db.module_semantic_diagnostics(m);
@@ -429,4 +432,104 @@ pub fn partial_query(db: &RootDatabase, main: &[CrateInput], kind: u8, pick: usi
             let _ = diagnostics_of(db, main);
         }
     }
+}
+
+/// Splits formatted diagnostics into entries and returns, for the entries present in exactly one
+/// of the two texts, the sorted distinct `file:code` items (e.g. `cycles.cairo:E2026`). Used to
+/// give differences between two diagnostics lists a specific signature.
+pub fn diag_diff_items(a: &str, b: &str) -> Vec<String> {
+    fn entries(s: &str) -> Vec<String> {
+        let mut out = vec![];
+        let mut cur = String::new();
+        for line in s.lines() {
+            if (line.starts_with("error") || line.starts_with("warning")) && !cur.is_empty() {
+                out.push(std::mem::take(&mut cur));
+            }
+            cur.push_str(line);
+            cur.push('\n');
+        }
+        if !cur.is_empty() {
+            out.push(cur);
+        }
+        out
+    }
+    fn item(e: &str) -> String {
+        let code = e.find('[').and_then(|i| e[i + 1..].find(']').map(|j| e[i + 1..i + 1 + j].to_string())).unwrap_or_else(|| "nocode".into());
+        let file = e
+            .lines()
+            .find_map(|l| l.trim_start().strip_prefix("--> "))
+            .map(|p| {
+                let p = p.split(':').next().unwrap_or(p);
+                p.rsplit('/').next().unwrap_or(p).to_string()
+            })
+            .unwrap_or_else(|| "nofile".into());
+        format!("{file}:{code}")
+    }
+    let ea = entries(a);
+    let eb = entries(b);
+    let mut items: Vec<String> = vec![];
+    let mut count = |x: &Vec<String>, y: &Vec<String>| {
+        let mut rest: Vec<&String> = y.iter().collect();
+        for e in x {
+            if let Some(p) = rest.iter().position(|r| *r == e) {
+                rest.remove(p);
+            } else {
+                items.push(item(e));
+            }
+        }
+    };
+    count(&ea, &eb);
+    count(&eb, &ea);
+    items.sort();
+    items.dedup();
+    items
+}
+
+/// For two Sierra programs in `Program` Display form with debug names: the user functions whose
+/// number of `withdraw_gas` invocations differs (sorted). Empty when the programs differ in some
+/// other way only.
+pub fn sierra_withdraw_gas_items(a: &str, b: &str) -> Vec<String> {
+    fn per_function(s: &str) -> BTreeMap<String, usize> {
+        // With debug names the statements carry labels: `F7:` opens function F7 (`F7_B2:` is a
+        // block inside it) and the declarations at the end read `name@F7(...) -> (...);`.
+        let mut counts: BTreeMap<String, usize> = BTreeMap::new();
+        let mut names: BTreeMap<String, String> = BTreeMap::new();
+        let mut cur = String::new();
+        for line in s.lines() {
+            let t = line.trim();
+            if let Some(l) = t.strip_suffix(':') {
+                if l.starts_with('F') && l[1..].chars().all(|c| c.is_ascii_digit()) && l.len() > 1 {
+                    cur = l.to_string();
+                    counts.entry(cur.clone()).or_insert(0);
+                }
+                continue;
+            }
+            if t.starts_with("withdraw_gas(") || t.starts_with("withdraw_gas_all(") {
+                *counts.entry(cur.clone()).or_insert(0) += 1;
+            }
+            if let Some(at) = t.rfind("@F") {
+                let rest = &t[at + 1..];
+                let label: String = rest.chars().take_while(|c| *c != '(').collect();
+                if rest[label.len()..].starts_with('(') && label[1..].chars().all(|c| c.is_ascii_digit()) && label.len() > 1 {
+                    names.insert(label, t[..at].to_string());
+                }
+            }
+        }
+        counts.into_iter().map(|(label, n)| (names.get(&label).cloned().unwrap_or(label), n)).collect()
+    }
+    let (fa, fb) = (per_function(a), per_function(b));
+    let mut items = vec![];
+    for (name, n) in &fa {
+        if fb.get(name) != Some(n) {
+            items.push(name.clone());
+        }
+    }
+    for name in fb.keys() {
+        if !fa.contains_key(name) {
+            items.push(name.clone());
+        }
+    }
+    items.sort();
+    items.dedup();
+    items
 }
